@@ -193,3 +193,31 @@ Example ex_alg_check :
   /\ vit_alg_check (ex_gw, ex_ws, [], (1000, tol6), (0, ex_t_bad1)) = 5
   /\ vit_alg_check (ex_gw, ex_ws, [], (1000, tol6), (1, ex_t)) = 1.
 Proof. repeat split; vm_compute; reflexivity. Qed.
+
+(** the loop over the recursive component [T] of the example returns a STABLE state (the premise
+    of C04_recorded_values_are_current / comp_recok): it stops after pass 2 with two equal iterates *)
+Example ex_stable :
+  exists M st, 1 <= M <= 1001 /\ viter ex_G ex_w [] [1] M = Some st /\ stable ex_G ex_w [] [1] M
+               /\ comp_model false ex_G ex_w tol6 1000 [] [1] = Some (st, true).
+Proof.
+  destruct (comp_model false ex_G ex_w tol6 1000 [] [1]) as [[st c]|] eqn:Hcm; [|vm_compute in Hcm; discriminate].
+  assert (Hc : c = true) by (vm_compute in Hcm; injection Hcm as _ <-; reflexivity). subst c.
+  destruct (comp_model_spec ex_G ex_w ltac:(vm_compute; reflexivity) tol6 1000 [] [1] st Hcm) as (M & HM & Hv & Hs).
+  exists M, st. split; [exact HM|]. split; [exact Hv|]. split; [exact Hs | reflexivity].
+Qed.
+
+(** one evaluation of F_viterbi at the cell (T, [1]) in the first pass: the cycle rule (0) has no
+    value yet ([None]), the base rule (1) fills the cell: value -1, lhs_pointer 1 *)
+Example ex_F_cell :
+  F_cell ex_G (lookup ex_G ex_w [] None) 1 [1]
+  = (true, TFin (Q2Qc ((-1) # 1)), 1, [None; Some []]).
+Proof. vm_compute. reflexivity. Qed.
+
+(** [reconstruct]'s assignment loop on rule 0 of the example (S -> x internal; T(x)): the pointer
+    row [1] gives x = 1; a row of the wrong length is an error *)
+Example ex_rhs_asst :
+  rhs_asst_code (get_rule ex_G 0) [] [1] = Some [1]
+  /\ rebuild (get_rule ex_G 0) [] [1] = [1]
+  /\ rhs_asst_code (get_rule ex_G 0) [] [] = None
+  /\ rhs_asst_code (get_rule ex_G 0) [] [1; 0] = None.
+Proof. repeat split; vm_compute; reflexivity. Qed.
